@@ -312,12 +312,13 @@ Qed.
 (* ---------------------------------------------------------------- every exported node has all its rows *)
 Definition complete (st : state U) : Prop :=
   forall u, In u (st_done st) ->
-    exists m sn, fnode u = Some m /\ short_name m = Ok sn /\ incl (node_row_ids U m sn) (map (@r_id U tidU) (st_rows st)).
+    exists m sn prs, fnode u = Some m /\ short_name m = Ok sn /\ exit_edge_pairs ueqb m (last_row_id m sn) = Ok prs
+                     /\ incl (node_row_ids U m sn) (map (@r_id U tidU) (st_rows st)).
 
 Lemma complete_ids st st' : st_done st' = st_done st -> incl (map (@r_id U tidU) (st_rows st)) (map (@r_id U tidU) (st_rows st')) ->
   complete st -> complete st'.
 Proof.
-  intros Hd Hi Hc u Hu. rewrite Hd in Hu. destruct (Hc u Hu) as (m & sn & A & B & C). exists m, sn. repeat split; try assumption.
+  intros Hd Hi Hc u Hu. rewrite Hd in Hu. destruct (Hc u Hu) as (m & sn & prs & A & B & B' & C). exists m, sn, prs. repeat split; try assumption.
   eapply incl_tran; [exact C|exact Hi].
 Qed.
 
@@ -335,10 +336,10 @@ Proof.
   - intros n sn st d e child st' fuel Hf _ _ _ _ IH H. apply IH; [apply (fnode_self _ _ Hf)|exact H].
   - intros n sn st H. exact H.
   - intros n sn st p st1 rest st2 _ IH1 _ IH2 H. apply IH2, IH1, H.
-  - intros n pe st sn rms prs st' Hsn Hi _ _ IH Hn H u Hu. cbn [leave st_done st_rows] in *. rewrite map_app.
+  - intros n pe st sn rms prs st' Hsn Hi He _ IH Hn H u Hu. cbn [leave st_done st_rows] in *. rewrite map_app.
     destruct Hu as [Hu|Hu].
-    + subst u. exists n, sn. repeat split; try assumption. rewrite (initiate_ids U _ _ _ _ Hi). apply incl_appl, incl_refl.
-    + destruct (IH H u Hu) as (m & sn' & A & B & C). exists m, sn'. repeat split; try assumption. apply incl_appr, C.
+    + subst u. exists n, sn, prs. repeat split; try assumption. rewrite (initiate_ids U _ _ _ _ Hi). apply incl_appl, incl_refl.
+    + destruct (IH H u Hu) as (m & sn' & prs' & A & B & B' & C). exists m, sn', prs'. repeat split; try assumption. apply incl_appr, C.
 Qed.
 
 (* ---------------------------------------------------------------- every destination of an exported node is exported *)
@@ -613,7 +614,8 @@ Record sheet_facts (nodes : list (node U)) (n0 : node U) (rows : list (row U (ti
   sf_back : back U [] rows;
   sf_done : NoDup done;
   sf_complete : forall u, In u done ->
-      exists m sn, find_node ueqb nodes u = Some m /\ short_name m = Ok sn /\ incl (node_row_ids U m sn) (map (@r_id U (tid U)) rows);
+      exists m sn prs, find_node ueqb nodes u = Some m /\ short_name m = Ok sn /\ exit_edge_pairs ueqb m (last_row_id m sn) = Ok prs
+                       /\ incl (node_row_ids U m sn) (map (@r_id U (tid U)) rows);
   sf_closed : forall u m sn prs d e, In u done -> find_node ueqb nodes u = Some m -> short_name m = Ok sn ->
       exit_edge_pairs ueqb m (last_row_id m sn) = Ok prs -> In (Some d, e) prs -> In d done /\ find_node ueqb nodes d <> None;
   sf_events : Permutation (events U rows) ((start_edge, dest_id U ueqb nodes (Some (n_uuid n0))) :: done_events U ueqb nodes done) }.
